@@ -24,6 +24,11 @@ def run(ctx: Context) -> None:
     ctx.rule('R08.5', "only spatially selected collections reach the output: coordinates forwarded unchanged into a clipped dataset have no mesh dimension / come from the cropped dataset", floor=3)
     ctx.rule('R08.6', "fill value choice: already masked data, then the _FillValue attribute, then missing_value, then the dtype's own NaN, else the variable cannot be masked; an attribute is used whenever it is present (whatever its value)", floor=5)
     ctx.rule('R08.7', "applying a mask never writes into the mask or the input dataset (a saved mask can be applied to a second dataset)", floor=5)
+    ctx.rule('R08.9', "coordinates and attributes pass through: the re-assembled dataset takes attributes and encodings back from every variable of the input, "
+             "coordinates as well as data variables (facts shared with C09 R09.10)", floor=2)
+    from . import c09 as _c09
+    from .common import share_obligations as _share8
+    _share8(ctx, _c09, {'R09.10'}, 'R08.9')
     from .common import adopt_foundations as _adopt
     _adopt(ctx, 'R08.8', ['masks', 'topology'], floor=60)
     ctx.assume("xarray where/isel/open_mfdataset; netCDF round trip of the per-variable files (value equality after the round trip is NOT decided)")
